@@ -28,7 +28,7 @@ def run(chk, tier):
     b = vlib.vbuild()
     wd = vlib.scratch("c03")
     levels = [0, 2, 9] if tier == "quick" else [0, 1, 2, 3, 5, 9]
-    n = 60 if tier == "quick" else 700
+    n = 40 if tier == "quick" else 700
     routes = []
     for q in levels:
         routes += [("interp-Q%d" % q, "interp", q, ()), ("ao-interp-Q%d" % q, "ao", q, ()), ("c-Q%d" % q, "c", q, ())]
@@ -62,13 +62,30 @@ def run(chk, tier):
                         "status": fam.exp[p["id"]]["status"]})
         done += m
         k += 1
+    # separate compilation: the functions that throw are compiled as a library unit (at -Q0), the handlers stay in the client;
+    # exceptions then cross a unit boundary on both routes
+    nx = 16 if tier == "quick" else 300
+    xprogs = []
+    for i in range(nx):
+        g = progen.ProgGen(((chk.seed + 11) % 1000003) * 100003 + i, emph=("try",))
+        g.feat |= {"try", "fun"}
+        g.feat -= {"gen"}
+        g.exns = g.exns or ["Ex0", "Ex1", "Ex2"]
+        xprogs.append(g.program("sx%d" % i))
+    famx = progcheck.Family(chk, xprogs, "split-exceptions", workers=vlib.NCPU, timeout=1500)
+    sroutes = []
+    for q in ([0, 2] if tier == "quick" else [0, 1, 2]):
+        sroutes += [("split0-interp-Q%d" % q, "split0-interp", q, ()), ("split0-c-Q%d" % q, "split0-c", q, ())]
+    progcheck.replay(chk, b, famx, sroutes, wd)
+    for s_, c in famx.status_count.items():
+        per["split:" + s_] = c
     # the pinned corpus through the Obs monitor: interpreter at -Q0 is the reference observation
     allnames = corpus.names()
     rnd = random.Random(chk.seed)
     # always: the programs about floats, exceptions, generators and abnormal ends; plus a seeded sample of the rest
     always = [n for n in allnames if n.startswith(("float", "exn", "try", "mandel", "bigmand", "exit", "halt", "gener", "gfGener",
                                                    "df", "fix", "ratio", "limits", "numeral", "lit"))]
-    sample = allnames if tier == "thorough" else sorted(set(always + rnd.sample(allnames, 50)))
+    sample = allnames if tier == "thorough" else sorted(set(always + rnd.sample(allnames, 25)))
     clevels = [0, 2] if tier == "quick" else levels
     cfgs = [("interp-Q0", "interp", ("-Q0",))]
     for q in clevels:
